@@ -3,7 +3,7 @@ import ast
 
 from ..flow import artefacts, calls_in, find_calls
 from ..model import dotted_of, short
-from ..rules import err, seq
+from ..rules import err, seq, anchor
 from ..types import Seq, Cls, strip_opt
 
 CLAIM = (
@@ -31,6 +31,7 @@ def run(ctx) -> None:
     p = ctx.p
     ctx.rule("REG", "every _verify_* of the IR stage is called, reachable, from _verify and its result reaches the returned accumulator", floor=12)
     ctx.rule("SEQ", "success exits of translate / parse / ontology pass through their verification stages", floor=3)
+    ctx.rule("ANCHOR-ATOMS", "the anchoring check tests emptiness, a single top-level alternative, first ^ and last $ (the features the regex-VM translator insists on)", floor=4)
     ctx.rule("NOSTUB", "each verification function can reach a statement producing an error", floor=14)
     ctx.rule("ERR1", "error pairs read (all functions of the two translate modules, _hierarchy, construction)", floor=70)
     ctx.rule("ERR1v", "values unused while error untested", floor=55)
@@ -78,6 +79,7 @@ def run(ctx) -> None:
         else:
             ctx.ok("REG", verify, call, what=what + ", result extended into the returned errors")
 
+    anchor.check_anchor_agreement(ctx, "ANCHOR-ATOMS")
     translate = p.func("intermediate._translate:translate")
     seq.check_sequence(ctx, translate, "SEQ", ["map_symbol_table_to_ontology", "_verify"], seq.returns_value_none, "translate: ")
     parse_entry = p.func("parse._translate:atok_to_symbol_table")
